@@ -535,12 +535,11 @@ impl BudgetEnforcer {
 
         if self.budget.enforce_alias_anchor_ratio
             && self.report.aliases >= self.budget.alias_anchor_min_aliases
-            && (self.report.anchors == 0
-                || self.report.aliases
-                    > self
-                        .budget
-                        .alias_anchor_ratio_multiplier
-                        .saturating_mul(self.report.anchors))
+            && self.report.aliases
+                > self
+                    .budget
+                    .alias_anchor_ratio_multiplier
+                    .saturating_mul(self.report.anchors)
         {
             self.report.breached = Some(BudgetBreach::AliasAnchorRatio {
                 aliases: self.report.aliases,
